@@ -15,11 +15,11 @@ use std::io::{BufRead, Write};
 // ------------------------------------------------------------------------------------------ allocator
 pub struct TrackAlloc;
 
-const TBL_BITS: usize = 18;
+const TBL_BITS: usize = 14;
 const TBL: usize = 1 << TBL_BITS;
 #[derive(Clone, Copy)]
 struct Block {
-    ptr: usize, // 0 = empty, 1 = tombstone
+    ptr: usize, // 0 = empty
     size: usize,
     align: usize,
     tracked: bool,
@@ -75,12 +75,27 @@ unsafe fn tbl_insert(b: Block) -> bool {
         }
         let mut i = slot(b.ptr);
         loop {
-            if BLOCKS[i].ptr <= 1 {
+            if BLOCKS[i].ptr == 0 {
                 BLOCKS[i] = b;
                 NBLOCKS += 1;
                 return true;
             }
             i = (i + 1) & (TBL - 1);
+        }
+    }
+}
+/// linear-probing deletion without tombstones: re-insert the rest of the cluster
+unsafe fn tbl_remove(i: usize) {
+    unsafe {
+        BLOCKS[i].ptr = 0;
+        NBLOCKS -= 1;
+        let mut j = (i + 1) & (TBL - 1);
+        while BLOCKS[j].ptr != 0 {
+            let b = BLOCKS[j];
+            BLOCKS[j].ptr = 0;
+            NBLOCKS -= 1;
+            tbl_insert(b);
+            j = (j + 1) & (TBL - 1);
         }
     }
 }
@@ -137,8 +152,7 @@ unsafe impl GlobalAlloc for TrackAlloc {
                 }
                 Some(i) => {
                     let b = BLOCKS[i];
-                    BLOCKS[i].ptr = 1;
-                    NBLOCKS -= 1;
+                    tbl_remove(i);
                     if b.size != layout.size() || b.align != layout.align() {
                         ev(b'E', p as usize, layout.size(), layout.align(), E_LAYOUT);
                     }
@@ -174,7 +188,7 @@ pub fn live_tracked() -> Vec<(usize, usize, usize)> {
         TRACK = false;
         for i in 0..TBL {
             let b = BLOCKS[i];
-            if b.ptr > 1 && b.tracked {
+            if b.ptr != 0 && b.tracked {
                 v.push((b.ptr, b.size, b.align));
             }
         }
@@ -188,7 +202,7 @@ pub fn check_redzones() {
     unsafe {
         for i in 0..TBL {
             let b = BLOCKS[i];
-            if b.ptr > 1 && b.tracked {
+            if b.ptr != 0 && b.tracked {
                 let r = rz(b.align);
                 let base = (b.ptr as *const u8).sub(r);
                 for k in 0..r {
